@@ -77,6 +77,97 @@ PROBES = {
 }
 
 
+def run_files(task):
+    """Several files in one run through parse_blocks (walk order given): each file gets the grammar of
+    its own name, whatever was resolved for the files before it."""
+    files, want_sample = task
+    from mirsym.models import ListIter
+    prog = driver.load_program()
+    stats = PathStats()
+    table, names, _st = real_table(prog)
+    f_pb = prog.find_fn('parse_blocks')
+    out = dict(violations=[], samples=[], obligations=0, cover={}, panic_paths=0)
+    holder = {}
+
+    def run_path(I):
+        used = {}
+        holder['used'] = used
+        cur = {}
+
+        def read_stub(I2, a, ci, dt):
+            fn = bytes(as_sstr(I2, a[1]).b)
+            cur['f'] = fn
+            return Ok(new_string(I2, b'FILE:' + fn + b'\n# <block name="n">\nx\n# </block>\n'))
+
+        def parse_stub(I2, a, ci, dt):
+            g = I2.deref_value(a[0])
+            while isinstance(g, Ref):
+                g = I2.deref_value(g)
+            src = bytes(as_sstr(I2, a[1]).b)
+            fn = src[len(b'FILE:'):src.index(b'\n')]
+            used[fn] = g.f[0]
+            return Ok(VecVal([mk_block(prog, I2, {}, (2, 3), (2, 9), (9, 11), (2, 10), (4, 1))]))
+        I.stubs['FileSystem::walk'] = lambda I2, a, ci, dt: ListIter([Ok(new_string(I2, f)) for f in files])
+        I.stubs['PathChecker::should_allow'] = lambda I2, a, ci, dt: True
+        I.stubs['PathChecker::should_ignore'] = lambda I2, a, ci, dt: False
+        I.stubs['FileSystem::read_to_string'] = read_stub
+        I.stubs['BlocksParser::parse'] = parse_stub
+        r = I.call_fn(f_pb, [MapVal((), 'HashMap'), True, Ref(Cell(Struct('FakeFS', ())), ()), Ref(Cell(Struct('FakePC', ())), ()),
+                             table, MapVal((), 'HashMap')])
+        return r
+
+    for I, kind, val in explore(prog, models.M, run_path, stats=stats, max_paths=2000):
+        out['obligations'] += 1
+        if kind == 'panic' or val.v != 0:
+            out['violations'].append(dict(role='unexpected-error', summary='parse_blocks failed on %s' % (files,), files=[f.decode() for f in files]))
+            continue
+        for f in files:
+            want = ref_grammar(f.decode('latin1'), None, names)
+            got = holder['used'].get(f)
+            if got != want:
+                out['violations'].append(dict(role='grammar-depends-on-other-files', files=[x.decode() for x in files], file=f.decode(),
+                                              summary='%s processed after %s: grammar %s used, its name maps to %s' % (
+                                                  f.decode(), [x.decode() for x in files[:files.index(f)]], got, want)))
+                break
+        out['cover']['several files'] = out['cover'].get('several files', 0) + 1
+    out.update(Agg(PROP, 'x').stats_from(stats))
+    return out
+
+
+def confirm_files(binary, v, idx, names):
+    """Replay: the files in scan order are not controllable through the CLI, but the order 'glob-matched
+    first, then files only named in the diff' is: the first file by glob, the others through a diff."""
+    files = v['files']
+    body = b'# <block name="n">\nx\n# </block>\n'
+    tree = {f: body for f in files}
+    diff = ''
+    for f in files[1:]:
+        diff += 'diff --git a/%s b/%s\n--- a/%s\n+++ b/%s\n@@ -2 +2 @@\n-y\n+x\n' % (f, f, f, f)
+    d = scratch_dir('c16f')
+    try:
+        git_init(d)
+        for f, c in tree.items():
+            pth = os.path.join(d, f)
+            os.makedirs(os.path.dirname(pth), exist_ok=True)
+            open(pth, 'wb').write(c)
+        r = run_blockwatch(binary, d, ['list', files[0]], stdin=diff.encode())
+    finally:
+        shutil.rmtree(d, ignore_errors=True)
+    try:
+        listed = sorted(json.loads(r['stdout']).keys()) if r['stdout'].strip() else []
+    except ValueError:
+        listed = None
+    want = sorted(f for f in files if ref_grammar(f, None, names))
+    v['observed'] = dict(code=r['code'], listed=listed, stderr=r['stderr'][-200:])
+    v['expected'] = want
+    v['confirmed'] = listed != want
+    if v['confirmed']:
+        tree['input.diff'] = diff.encode()
+        v['replay'] = save_replay(PROP, 'files-%d' % idx, tree, 'list %s' % files[0],
+                                  'expected blocks listed for exactly %s; %s' % (want, v['summary']), v, stdin_file='input.diff')
+    return v
+
+
 class FakeFS:
     pass
 
@@ -93,9 +184,13 @@ def run_name(task):
     keys = sorted(names.keys())
 
     def run_path(I):
-        name = tuple(I.fresh_byte('p%d' % i, NAME_ALPHABET) for i in range(nlen))
-        if fixed_last is not None:
-            I.add(name[-1] == fixed_last)      # work split only: all values of the alphabet are enumerated
+        if isinstance(fixed_last, bytes):
+            # a literal (compound) suffix after a symbolic stem: names longer than the all-symbolic bound
+            name = tuple(I.fresh_byte('p%d' % i, NAME_ALPHABET) for i in range(nlen)) + tuple(fixed_last)
+        else:
+            name = tuple(I.fresh_byte('p%d' % i, NAME_ALPHABET) for i in range(nlen))
+            if fixed_last is not None:
+                I.add(name[-1] == fixed_last)      # work split only: all values of the alphabet are enumerated
         holder['name'] = name
         extra_ents = []
         holder['remap'] = None
@@ -476,10 +571,16 @@ def main(tier):
                     tasks.append((n, rm, ch in (104, 115, 100), ch))
             else:
                 tasks.append((n, rm, True, None))
+    for suf in (b'.go.mod', b'.go.sum', b'.go.work', b'.d.ts', b'go.mod', b'.x.go.mod', b'.tar.md'):
+        for n in (1, 2, 3):
+            tasks.append((n, None, n == 1, suf))
     tasks.sort(key=lambda t: -t[0])
     results = pmap(run_name, tasks)
     results += pmap(run_flags, [(n, True) for n in range(0, b['flag_max'] + 1)])
     results += pmap(run_flags_supported, [0], jobs=1)
+    pairs = [(b'go.mod', b'deps.mod'), (b'deps.mod', b'go.mod'), (b'a.d.ts', b'b.s'), (b'Makefile', b'x.Makefile', b'y.mk'),
+             (b'x.work', b'go.work', b'd/go.work'), (b'a.py', b'b.py', b'c.txt'), (b'go.sum', b'x.sum', b'go.sum.bak')]
+    results += pmap(run_files, [(p_, False) for p_ in pairs])
     for r in results:
         agg.add(r)
     # the registered table against the conventional language of each suffix
@@ -508,7 +609,10 @@ def main(tier):
             if v.get('table'):
                 got = v
                 break
-            confirm(binary, v, i, names)
+            if 'files' in v and 'path' not in v:
+                confirm_files(binary, v, i, names)
+            else:
+                confirm(binary, v, i, names)
             if v['confirmed']:
                 got = v
                 break
@@ -547,7 +651,7 @@ def main(tier):
                      'FileSystem::read_to_string and BlocksParser::parse are recording stubs; paths ending in / are outside the claim',
                      'clap itself is not encoded: parse_extensions and Args::validate are driven directly'],
         stubs=['<lang>::parser constructors', 'FileSystem::read_to_string', 'BlocksParser::parse'],
-        must_cover=['chosen', 'skipped', 'no-equals', 'unsupported-rejected', 'supported-accepted'],
+        must_cover=['chosen', 'skipped', 'several files', 'no-equals', 'unsupported-rejected', 'supported-accepted'],
         explanation='reference suffix rule as a Z3 formula over the path bytes; per path: PC∧expect(g)∧chosen≠g, PC∧expect(none)∧chosen')
 
 
